@@ -124,6 +124,11 @@ Lemma py_nth_z_0 a l : py_nth_z (a :: l) 0%Z = Ok a.
 Proof. unfold py_nth_z. change 0%Z with (Z.of_nat 0). rewrite (py_index_nat (length (a :: l)) 0) by (cbn; lia). reflexivity. Qed.
 Lemma py_nth_z_1 a b l : py_nth_z (a :: b :: l) 1%Z = Ok b.
 Proof. unfold py_nth_z. change 1%Z with (Z.of_nat 1). rewrite (py_index_nat (length (a :: b :: l)) 1) by (cbn; lia). reflexivity. Qed.
+Lemma py_nth_z_1_short a : py_nth_z [a] 1%Z = Err.
+Proof. reflexivity. Qed.
+Lemma py_nth_z_nil z : py_nth_z [] z = Err.
+Proof. unfold py_nth_z, py_index. cbn [length]. destruct ((0 <=? z) && (z <? Z.of_nat 0))%Z eqn:E1; [apply andb_true_iff in E1; destruct E1 as [A B]; apply Z.leb_le in A; apply Z.ltb_lt in B; cbn in B; lia|].
+  destruct ((z <? 0) && (- Z.of_nat 0 <=? z))%Z eqn:E2; [apply andb_true_iff in E2; destruct E2 as [A B]; apply Z.ltb_lt in A; apply Z.leb_le in B; cbn in B; lia|]. reflexivity. Qed.
 Lemma np_dot_mat (M U : tensor F) a b : shape M = [a; b] -> nrows U = b -> np_dot M U = Ok (matmul Op M U).
 Proof. intros Hs Hu. unfold np_dot. rewrite Hs, Hu, Nat.eqb_refl. reflexivity. Qed.
 Lemma np_dot_vec (v U : tensor F) a : shape v = [a] -> nrows U = a -> np_dot v U = Ok (vecmat Op v U).
@@ -131,5 +136,99 @@ Proof. intros Hs Hu. unfold np_dot. rewrite Hs, Hu, Nat.eqb_refl. reflexivity. Q
 Lemma unfold_nrows (T U : tensor F) k : unfold (r0 Op) T k = Ok U -> nrows U = nth k (shape T) 0.
 Proof. intros H. destruct (unfold_shape2 T U k H) as [c E]. unfold nrows. now rewrite E. Qed.
 End Prims.
+
+(* ------------------------------------------------------------------ khatri_rao: items, 2-D shapes, the broadcast step, the loops *)
+Section KR.
+Context {F : Type} (Op : rops F).
+(* l[k] for a literal k: IndexError when the list is too short *)
+Definition py_item (l : list (tensor F)) (k : nat) : res (tensor F) :=
+  match nth_error l k with Some x => Ok x | None => Err end.
+(* s1, s2 = T.shape(t): ValueError unless t is 2-D *)
+Definition py_shape2 (t : tensor F) : res (nat * nat) := match shape t with [a; b] => Ok (a, b) | _ => Err end.
+(* reshape(reshape(A, (s1, 1, s2)) * reshape(B, (1, s3, s4)), (-1, n)) for 2-D A, B with n columns each: the model's kr_step.
+   Other column counts are outside the model (NumPy would broadcast a single column or raise): Err - unreachable after the
+   validation loop of khatri_rao, as the generated theorem shows. *)
+Definition kr_step_n (A B : tensor F) (n : nat) : res (tensor F) :=
+  match shape A, shape B with
+  | [_; c1], [_; c2] => if (c1 =? n) && (c2 =? n) then Ok (kr_step Op A B) else Err
+  | _, _ => Err
+  end.
+Definition kr_step_chk (A B : tensor F) (n : nat) : res (tensor F) :=
+  rbind (py_shape2 A) (fun _ => rbind (py_shape2 B) (fun _ => kr_step_n A B n)).
+Lemma kr_step_chk_ok (A B : tensor F) a b n : shape A = [a; n] -> shape B = [b; n] -> kr_step_chk A B n = Ok (kr_step Op A B).
+Proof. intros HA HB. unfold kr_step_chk, py_shape2, kr_step_n. rewrite HA, HB. cbn [rbind]. now rewrite Nat.eqb_refl. Qed.
+Lemma kr_step_shape (A B : tensor F) a b n : shape A = [a; n] -> shape B = [b; n] -> shape (kr_step Op A B) = [a * b; n].
+Proof. intros HA HB. unfold kr_step, nrows, ncols. rewrite HA, HB. reflexivity. Qed.
+Lemma apply_w_shape w (M M' : tensor F) : apply_w Op w M = Ok M' -> shape M' = shape M.
+Proof.
+  unfold apply_w. destruct w as [w|]; [|intros H; injection H as <-; reflexivity].
+  destruct (prod (shape w) =? ncols M); [intros H; injection H as <-; reflexivity|].
+  destruct (prod (shape w) =? 1); [intros H; injection H as <-; reflexivity|discriminate].
+Qed.
+
+(* a loop that only checks *)
+Lemma fold_res_check {X} (P : X -> bool) (step : unit -> X -> res unit) :
+  (forall x, step tt x = if P x then Ok tt else Err) -> forall l, fold_res step l tt = if forallb P l then Ok tt else Err.
+Proof.
+  intros H. induction l as [|x l IH]; [reflexivity|]. cbn [fold_res forallb]. rewrite H.
+  destruct (P x); cbn [rbind andb]; [exact IH|reflexivity].
+Qed.
+Lemma forallb_enumerate {X} (Q : X -> bool) (l : list X) : forall k,
+  forallb (fun p => Q (snd p)) (combine (seq k (length l)) l) = forallb Q l.
+Proof. induction l as [|x l IH]; intros k; [reflexivity|]. cbn [length seq combine forallb snd]. now rewrite IH. Qed.
+
+(* the main loop of khatri_rao: first iteration starts from `first` (matrices[0], weighted), every iteration is one checked kr_step *)
+Lemma kr_loop (step : option (tensor F) -> nat * tensor F -> res (option (tensor F))) (first : res (tensor F)) (n : nat) :
+  (forall st e, step st (0, e) = rbind first (fun r => rbind (kr_step_chk r e n) (fun r' => Ok (Some r')))) ->
+  (forall a i e, step (Some a) (S i, e) = rbind (kr_step_chk a e n) (fun r' => Ok (Some r'))) ->
+  forall l, l <> [] -> Forall (fun M => exists b, shape M = [b; n]) l ->
+  (forall R0, first = Ok R0 -> exists a, shape R0 = [a; n]) ->
+  fold_res step (py_enumerate l) None = rbind first (fun R0 => Ok (Some (fold_left (kr_step Op) l R0))).
+Proof.
+  intros H0 HS l Hne Hl Hf. destruct l as [|e l]; [congruence|]. clear Hne.
+  unfold py_enumerate. cbn [length seq combine fold_res]. rewrite H0.
+  destruct first as [R0|]; cbn [rbind]; [|reflexivity].
+  destruct (Hf R0 eq_refl) as [a Ha]. inversion Hl as [|? ? [b Hb] Hl']; subst.
+  rewrite (kr_step_chk_ok R0 e a b n Ha Hb). cbn [rbind fold_left].
+  pose proof (kr_step_shape R0 e a b n Ha Hb) as Hacc. revert Hacc. generalize (kr_step Op R0 e) as acc. generalize (a * b) as r.
+  clear - HS Hl'. revert Hl'. generalize 0 as j.
+  induction l as [|x l IH]; intros j Hl' r acc Hacc; [reflexivity|].
+  cbn [length seq combine fold_res fold_left]. rewrite HS. inversion Hl' as [|? ? [b Hb] Hl'']; subst.
+  rewrite (kr_step_chk_ok acc x r b n Hacc Hb). cbn [rbind].
+  apply (IH (S j) Hl'' (r * b)). exact (kr_step_shape acc x r b n Hacc Hb).
+Qed.
+End KR.
+
+(* ------------------------------------------------------------------ memory MTTKRP: list building loop, np.stack *)
+Lemma fold_res_append_sim {X A} (f : X -> res A) (step : list A -> X -> res (list A)) :
+  (forall acc x, step acc x = rbind (f x) (fun c => Ok (acc ++ [c]))) ->
+  forall l acc, fold_res step l acc = rbind (collect (map f l)) (fun cs => Ok (acc ++ cs)).
+Proof.
+  intros H. induction l as [|x l IH]; intros acc; cbn [fold_res map collect rbind]; [now rewrite app_nil_r|].
+  rewrite H. destruct (f x) as [c|]; cbn [rbind]; [|reflexivity]. rewrite IH.
+  destruct (collect (map f l)) as [cs|]; cbn [rbind]; [|reflexivity]. now rewrite <- app_assoc.
+Qed.
+Section Stack.
+Context {F : Type} (Op : rops F).
+(* np.stack(parts, axis=1) of 1-D arrays of one common length (an empty list or differing shapes raise; other ranks: outside the model) *)
+Definition np_stack1 (parts : list (tensor F)) : res (tensor F) :=
+  match parts with
+  | [] => Err
+  | p :: _ => match shape p with
+              | [n] => if forallb (fun q => nat_list_eq (shape q) [n]) parts then Ok (stack_cols Op n parts) else Err
+              | _ => Err
+              end
+  end.
+Lemma np_stack1_ok (g : nat -> tensor F) n R : 0 < R -> (forall r, shape (g r) = [n]) ->
+  np_stack1 (map g (seq 0 R)) = Ok (stack_cols Op n (map g (seq 0 R))).
+Proof.
+  intros HR Hg. destruct R as [|R]; [lia|]. unfold np_stack1. cbn [seq map]. rewrite Hg.
+  assert (E : forallb (fun q : tensor F => nat_list_eq (shape q) [n]) (g 0 :: map g (seq 1 R)) = true).
+  { apply forallb_forall. intros q Hq. change (g 0 :: map g (seq 1 R)) with (map g (seq 0 (S R))) in Hq.
+    apply in_map_iff in Hq. destruct Hq as [r [<- _]]. rewrite Hg. cbn. now rewrite Nat.eqb_refl. }
+  now rewrite E.
+Qed.
+End Stack.
+
 Lemma rbind_ok_id {A} (x : res A) : rbind x (fun h => Ok h) = x.
 Proof. destruct x; reflexivity. Qed.
